@@ -221,7 +221,7 @@ type tok struct {
 	text string
 }
 
-var wordPool = []string{"a", "b c", "é", "---x", "---", "-", "0", "x=y", "w1", "日本", "a-b", "--- --"}
+var wordPool = []string{"a", "b c", "é", "---x", "---", "-", "0", "x=y", "w1", "日本", "a-b", "--- --", "\"a b\"", "\"x", "\"\"", "\"-v\"", "'q'", "a\\tb"}
 
 // ------------------------------------------------------------------------------------ C03
 
@@ -389,9 +389,14 @@ func checkC07Unknown(c *Ctx, n int) {
 	policies := []string{"fail", "ignore", "identity", "dropnext", "prepend", "refuse"}
 	for i := 0; i < n; i++ {
 		policy := policies[r.Intn(len(policies))]
+		// (IgnoreUnknown together with PassAfterNonOption: the ignored option is no "non-option")
+		afterNonOption := policy == "ignore" && r.Intn(3) == 0
 		lc := newLine(c, p, 3, func(cs *Case) {
 			cs.Opts &^= flags.PassDoubleDash | flags.PassAfterNonOption | flags.IgnoreUnknown | flags.HelpFlag
 			cs.Build = append(cs.Build, BuildOp{Kind: "setcmd", Target: 1, Attr: "subopt", Vals: []string{"1"}})
+			if afterNonOption {
+				cs.Opts |= flags.PassAfterNonOption
+			}
 			switch policy {
 			case "ignore":
 				cs.Opts |= flags.IgnoreUnknown
@@ -555,6 +560,20 @@ func checkC07Unknown(c *Ctx, n int) {
 				}
 			case "ignore":
 				wantRet := append([]string{utext}, words(post)...)
+				if afterNonOption {
+					// parsing goes on behind the ignored option, up to the first plain word; from there on
+					// everything is passed through
+					wantRet = []string{utext}
+					for j, t := range post {
+						if t.kind == "W" {
+							for _, t2 := range post[j:] {
+								wantRet = append(wantRet, t2.text)
+							}
+							break
+						}
+					}
+					in["pass_after_non_option"] = true
+				}
 				if obs.errKind != "ok" || fmt.Sprintf("%q", obs.ret) != fmt.Sprintf("%q", wantRet) {
 					fail(got, fmt.Sprintf("success, remaining %q", wantRet))
 					return
